@@ -225,15 +225,40 @@ def emit_basic(sp):
 
 
 # ------------------------------------------------------------------------------------------------ PlantUML front-end
+def puml_names(sp):
+    """names the states carry inside the PlantUML document. The lines that configure ONE state ('-> [*]', flag, entry, exit)
+    must not leak to a state whose name is a suffix or a prefix of the named one, so the document uses such names on
+    purpose: a terminate state T is called Q<V> and a flagged state P<V>x for other states V of the machine."""
+    m = sp['root']
+    order = S.state_order(m)
+    pn = {n: n for n in order}
+    plain = [n for n in order if m['states'][n]['kind'] != 'terminate']
+    k = 0
+    for n in order:
+        st = m['states'][n]
+        victims = [v for v in plain if v != n and pn[v] == v]
+        if not victims:
+            continue
+        v = victims[k % len(victims)]
+        if st['kind'] == 'terminate':
+            pn[n] = 'Q' + v
+            k += 1
+        elif st.get('flags') and k % 2 == 0:
+            pn[n] = v + 'x'
+            k += 1
+    return pn
+
+
 def puml_text(sp, style=0):
     """PlantUML document for a flat spec. style selects arrow lengths / padding / part order (metamorphic variants)"""
     m = sp['root']
+    pn = puml_names(sp)
     lines = ['@startuml Root', 'state Root{']
     pad = ['', ' ', '  ', '\t'][style % 4]
     for reg in m['regions']:
-        lines.append('%s[*] -> %s' % (pad, reg[0]))
+        lines.append('%s[*] -> %s' % (pad, pn[reg[0]]))
     for i, r in enumerate(m['table']):
-        src, tgt = r['src'], r.get('tgt')
+        src, tgt = pn[r['src']], (pn[r['tgt']] if r.get('tgt') is not None else None)
         arrow = '-' * (1 + (i + style) % 4) + '>'
         ev = r['ev'] or ''
         right = ''
@@ -252,13 +277,13 @@ def puml_text(sp, style=0):
     for name in S.state_order(m):
         st = m['states'][name]
         if st['kind'] == 'terminate':
-            lines.append('%s%s -> [*]' % (pad, name))
+            lines.append('%s%s -> [*]' % (pad, pn[name]))
     for name in S.state_order(m):
         st = m['states'][name]
         for f in st.get('flags') or []:
-            lines.append('%s%s : flag %s' % (pad, name, f))
-        lines.append('%s%s : entry en_%s' % (pad, name, name))
-        lines.append('%s%s : exit ex_%s' % (pad, name, name))
+            lines.append('%s%s : flag %s' % (pad, pn[name], f))
+        lines.append('%s%s : entry en_%s' % (pad, pn[name], name))
+        lines.append('%s%s : exit ex_%s' % (pad, pn[name], name))
     lines += ['}', '@enduml']
     return '\n'.join(lines) + '\n'
 
